@@ -2,6 +2,7 @@ import Hive.Proofs.TypedValue
 import Hive.Proofs.TypedStore
 import Hive.Proofs.TypedConc
 import Hive.Proofs.TypedCounter
+import Hive.Proofs.TypedGate
 import Hive.Gen.C06_Skel
 /-!
 # C06 — TypedValue / TypedStore are transparent, error-faithful typed views
@@ -220,6 +221,44 @@ theorem C06_store_iterate_stops_at_first_decode_error (KC : Codec K) (VC : Codec
     rw [hst, hj]; simp
 
 omit [Inhabited V] in
+/-- **`IterateKeys`** stops at the first key decode error and returns it, exactly like `Iterate`
+(entry `i` makes decode call `i`), and never touches the store. -/
+theorem C06_store_iterate_keys (KC : Codec K) (m : Store) (pfx : Bytes) (bwd : Bool) (stop : Nat) (F : SFaults) :
+    let rs := mapIdxFrom (decKeyEntry KC F) 0 (m.entries pfx bwd)
+    (siterateKeys KC m pfx bwd stop F).st = m ∧
+    (F.kv1 = true → (siterateKeys KC m pfx bwd stop F).out = .iter [] (some .kv)) ∧
+    (F.kv1 = false → F.kvAfter = none →
+      (siterateKeys KC m pfx bwd stop F).out =
+        if 0 < stop ∧ stop ≤ (goodPrefix rs).length then .iter ((goodPrefix rs).take stop) none
+        else .iter (goodPrefix rs) (firstErr rs)) := by
+  intro rs
+  have hk : ∀ x ∈ rs, x ≠ .error .kv ∧ x ≠ .error .encK ∧ x ≠ .error .encV := by
+    intro x hx
+    obtain ⟨j, a, rfl⟩ := mapIdxFrom_mem _ _ _ _ hx
+    unfold decKeyEntry
+    split <;> simp
+  refine ⟨by unfold siterateKeys; split <;> rfl, fun h1 => by simp [siterateKeys, h1], fun h1 h2 => ?_⟩
+  have hspec := iterLoop_spec stop rs 0 [] [] hk
+  simp only [List.length_nil, Nat.zero_add, List.nil_append, Nat.sub_zero] at hspec
+  have hst : (siterateKeys KC m pfx bwd stop F).out =
+      .iter (iterLoop none stop rs 0 [] []).1 (iterLoop none stop rs 0 [] []).2.1 := by
+    simp only [siterateKeys, h1, h2, Bool.false_eq_true, if_false]
+    rfl
+  rw [hst]
+  have e1 := congrArg Prod.fst hspec
+  have e2 := congrArg Prod.snd hspec
+  simp only at e1 e2
+  rw [e1, e2]
+  split <;> rfl
+
+/-- **`DeletePrefix` / `Clear`** are the raw operations: a failing store call is reported and changes
+nothing, otherwise exactly the keys with the prefix (resp. all keys) are gone. -/
+theorem C06_store_delete_prefix_clear (m : Store) (pfx : Bytes) (F : SFaults) :
+    (F.kv1 = true → sdeletePrefix m pfx F = (m, some .kv) ∧ sclear m F = (m, some .kv)) ∧
+    (F.kv1 = false → sdeletePrefix m pfx F = (m.filter (fun e => !pfx.isPrefixOf e.1), none) ∧ sclear m F = ([], none)) := by
+  constructor <;> intro h <;> simp [sdeletePrefix, sclear, Store.deletePrefix, h]
+
+omit [Inhabited V] in
 /-- **The typed view is the raw store.**  A successful `Set k v` leaves exactly the raw store with
 `enc k ↦ enc v` inserted, after which `Get k` returns `v` (round-trip codecs) and keys with another
 encoding are unaffected; a successful `Delete k` erases `enc k`, after which `Get k` is not found. -/
@@ -368,6 +407,18 @@ theorem C06_serialised_readers (C : Codec V) (hrt : C.RoundTrip) (raw : Option B
   refine ⟨b, ?_, hd⟩
   rw [← hb, store_run, hpre]
   rfl
+
+/-- **The serial-order judge of the gate schedules** (`conc gate …` lines: one writer parked inside the
+store, a `Delete` and several `Compute`/`Set` calls queued behind it, every write unique, every `Compute`
+reporting what its function was given).  The judge is sound — it accepts only if some order of the
+queued calls, replayed from what the parked writer left, hands every `Compute` what it reported and
+ends in the final state — and complete for the order in which the calls really took the lock, which by
+`C06_serialised` is a run of the sequential machine: a serialised implementation is always accepted,
+a lost `Delete` (a `Compute` handed a value that was deleted before it ran) never is. -/
+theorem C06_serialised_judge (init : Nat) (ops : List GOp) (final : Nat) :
+    (serialOk init ops final = true → ∃ l, l.Perm ops ∧ replayG init l = some final) ∧
+    (replayG init ops = some final → serialOk init ops final = true) :=
+  ⟨serialOk_sound init ops final, serialOk_complete init ops final⟩
 
 /-- **No lost update (counter workload).**  Any number of goroutines run any mix of
 `Compute(increment)`, `Get` and `Has` with any fault vectors on a fresh counter.  In every
